@@ -193,6 +193,7 @@ def run(ctx):
     ctx.floor('C01-FAILCLOSED', m, 15, 'default handlers on the translation path')
     # ---------------------------------------------------------------- SLICE / FIXED (shared)
     C05.fixed_rule(ctx, prefix='C01-FIXED')
+    C05.embedded_rule(ctx, prefix='C01-FIXED')
 
 
 MUTANTS = [
